@@ -402,6 +402,89 @@ func (fr *Frame) recvTerms(c Term, elem types.Type, st *State) (string, string) 
 	return has, val
 }
 
+// neverClosedFacts: `never_closed e` — e is a channel no statement of the package closes (checked
+// syntactically below); a receive on it that returns has therefore received a value. Partial
+// correctness: the executions in which the receive blocks for ever perform no further step.
+func (fr *Frame) neverClosedFacts(c Term, guard, has string, st *State) {
+	if fr.spec == nil || !fr.isTop {
+		return
+	}
+	vc := fr.vc
+	for _, nc := range fr.spec.NeverClosed {
+		ctx := fr.specCtx(st, fr.entry, fr.curBlock, fr.curIdx)
+		t, err := ctx.eval(nc.E)
+		if err != nil {
+			vc.unsupportedf("never_closed %s: %v", nc.Text, err)
+			continue
+		}
+		if !vc.ncChecked[nc] {
+			vc.ncChecked[nc] = true
+			sel := nc.Text
+			if i := strings.LastIndex(sel, "."); i >= 0 {
+				sel = sel[i+1:]
+			}
+			if pos, found := closesField(fr.fn, strings.TrimSpace(sel)); found {
+				vc.unsupportedf("never_closed %s: the package closes a field of that name at %s", nc.Text, vc.posOf(pos))
+			}
+			vc.note("channel %s is never closed: no close of a field %s in package %s (syntactic check); a receive on it returns only with a value", nc.Text, sel, fr.fn.Pkg.Pkg.Name())
+		}
+		vc.assumeIf(guard, fmt.Sprintf("(=> (= %s %s) %s)", c.S, t.S, has))
+	}
+}
+
+// closesField: some function of fn's package calls close on a value loaded from a field named sel.
+func closesField(fn *ssa.Function, sel string) (token.Pos, bool) {
+	if fn.Pkg == nil {
+		return token.NoPos, false
+	}
+	var fns []*ssa.Function
+	var add func(f *ssa.Function)
+	add = func(f *ssa.Function) {
+		if f == nil {
+			return
+		}
+		fns = append(fns, f)
+		for _, a := range f.AnonFuncs {
+			add(a)
+		}
+	}
+	for _, m := range fn.Pkg.Members {
+		switch v := m.(type) {
+		case *ssa.Function:
+			add(v)
+		case *ssa.Type:
+			for _, t := range []types.Type{v.Type(), types.NewPointer(v.Type())} {
+				ms := fn.Prog.MethodSets.MethodSet(t)
+				for i := 0; i < ms.Len(); i++ {
+					add(fn.Prog.MethodValue(ms.At(i)))
+				}
+			}
+		}
+	}
+	for _, f := range fns {
+		for _, b := range f.Blocks {
+			for _, ins := range b.Instrs {
+				ci, ok := ins.(ssa.CallInstruction)
+				if !ok {
+					continue
+				}
+				bi, ok := ci.Common().Value.(*ssa.Builtin)
+				if !ok || bi.Name() != "close" {
+					continue
+				}
+				if u, ok := ci.Common().Args[0].(*ssa.UnOp); ok {
+					if fa, ok := u.X.(*ssa.FieldAddr); ok {
+						if fieldName(fa.X.Type().Underlying().(*types.Pointer).Elem(), fa.Field) == sel {
+							return ins.Pos(), true
+						}
+					}
+				}
+			}
+		}
+	}
+	return token.NoPos, false
+}
+
 func (fr *Frame) execRecv(ins *ssa.UnOp, st *State) {
 	vc := fr.vc
 	c := fr.val(ins.X)
@@ -414,6 +497,7 @@ func (fr *Frame) execRecv(ins *ssa.UnOp, st *State) {
 	vc.define(vn, vc.sortOf(ct.Elem()), val)
 	vc.assumeIf(fr.curReach, vc.wf(ct.Elem(), vn))
 	fr.instantiateChanFacts(c, fmt.Sprintf("(select %s %s)", vc.get(st, vc.chposComp()), c.S), hn)
+	fr.neverClosedFacts(c, fr.curReach, hn, st)
 	comp := vc.chposComp()
 	cur := vc.get(st, comp)
 	vc.set(st, comp, fmt.Sprintf("(store %s %s (+ (select %s %s) (ite %s 1 0)))", cur, c.S, cur, c.S, hn))
@@ -455,6 +539,7 @@ func (fr *Frame) execSelect(ins *ssa.Select, st *State) {
 		vc.define(vn, vc.sortOf(ct.Elem()), val)
 		vc.assumeIf(and(fr.curReach, chosen), vc.wf(ct.Elem(), vn))
 		fr.instantiateChanFacts(c, fmt.Sprintf("(select %s %s)", cur, c.S), and(chosen, hn))
+		fr.neverClosedFacts(c, and(fr.curReach, chosen, nonnil), hn, st)
 		newPos = fmt.Sprintf("(ite %s (store %s %s (+ (select %s %s) (ite %s 1 0))) %s)", chosen, cur, c.S, cur, c.S, hn, newPos)
 		okT = fmt.Sprintf("(ite %s %s %s)", chosen, hn, okT)
 		vals = append(vals, Term{vn, vc.sortOf(ct.Elem()), ct.Elem()})
